@@ -287,6 +287,112 @@ pub fn rich_dump(r: &mut Rng, prop: &str, seed: u64, profile: &str, benign_fault
     (sc, tags)
 }
 
+pub fn dest_plan(r: &mut Rng, with_faults: bool) -> DestPlan {
+    let start = *r.pick(&[0u64, 0, 1, 7, 4095, 4096, 65536]);
+    let pre_len = match r.below(4) {
+        0 => 0,
+        1 => start,
+        2 => start + r.below(5000),
+        _ => start + 20_000 + r.below(200_000),
+    };
+    let start = start.min(pre_len.max(start));
+    let mut fx = Vec::new();
+    if with_faults {
+        let n = if r.chance(1, 4) { 2 } else { 1 };
+        for _ in 0..n {
+            let op = r.below(90) as u32;
+            let kind = match r.below(8) {
+                0 | 1 => DestFx::Short(*r.pick(&[1u64, 2, 11, 12, 13, 31, 100, 4096])),
+                2 => DestFx::Interrupted,
+                3 | 4 => DestFx::Error(28),
+                5 => DestFx::Error(5),
+                6 => DestFx::Panic,
+                _ => DestFx::Short(1),
+            };
+            if !fx.iter().any(|(o, _)| *o == op) {
+                fx.push((op, kind));
+            }
+        }
+        fx.sort_by_key(|(o, _)| *o);
+    }
+    DestPlan { start, pre_len, fx }
+}
+
+fn dir_plan(r: &mut Rng) -> DirPlan {
+    let slots = r.range(1, 8) as u32;
+    let n = r.range(1, 40);
+    let mut ops = Vec::new();
+    let mut nalloc = 0u32;
+    let mut narr: Vec<u32> = Vec::new();
+    let mut dirents = 0u32;
+    for _ in 0..n {
+        let k = r.below(10);
+        match k {
+            0 => {
+                ops.push(DirOp::AllocU32(r.next() as u32));
+                nalloc += 1;
+            }
+            1 | 2 => {
+                let len = *r.pick(&[0usize, 1, 3, 12, 100, 5000]);
+                ops.push(DirOp::AllocBytes(B(r.bytes(len))));
+                nalloc += 1;
+            }
+            3 => {
+                let c = r.below(6) as u32;
+                ops.push(DirOp::AllocArrayU64(c));
+                narr.push(c);
+                nalloc += 1;
+            }
+            4 => {
+                if let Some((ai, c)) = narr.iter().enumerate().filter(|(_, c)| **c > 0).last().map(|(i, c)| (i, *c)) {
+                    ops.push(DirOp::SetU64 { array: ai as u32, idx: r.below(c as u64) as u32, val: r.next() });
+                }
+            }
+            5 => {
+                let len = r.below(12) as usize;
+                let s: String = (0..len).map(|_| *r.pick(&['a', 'b', 'é', '漢', '😀', ' ', '/'])).collect();
+                ops.push(DirOp::WriteString(s));
+                nalloc += 1;
+            }
+            6 | 7 => ops.push(DirOp::Flush),
+            _ => {
+                if dirents < slots && nalloc > 0 {
+                    ops.push(DirOp::Dirent { stream_type: 1 + r.below(30) as u32, from_alloc: r.below(nalloc as u64) as u32 });
+                    dirents += 1;
+                }
+            }
+        }
+    }
+    let with_faults = r.coin();
+    let mut dest = dest_plan(r, with_faults);
+    for f in dest.fx.iter_mut() {
+        f.0 %= 24;
+        if f.1 == DestFx::Panic {
+            f.1 = DestFx::Error(28);
+        }
+    }
+    DirPlan { slots, dest, ops }
+}
+
+fn small_rich(r: &mut Rng, prop: &str, seed: u64, profile: &str) -> Scenario {
+    // like rich_dump but thread counts stay small so that multi-run properties remain cheap
+    let (mut sc, _) = rich_dump(r, prop, seed, profile, false);
+    if sc.world.threads.len() > 8 && !r.chance(1, 8) {
+        let keep = r.range(1, 8) as usize;
+        let (blamed, crash_tid) = match &sc.workload {
+            Workload::Dump(p) => (p.opts.blamed, p.opts.crash.as_ref().map(|c| c.tid)),
+            _ => (0, None),
+        };
+        let mut i = 0usize;
+        sc.world.threads.retain(|t| {
+            i += 1;
+            i <= keep || t.tid == blamed || Some(t.tid) == crash_tid
+        });
+        sc.tags[0] = "thr-small".into();
+    }
+    sc
+}
+
 pub fn generate(prop: &str, verif_seed: u64, idx: u64) -> Scenario {
     let seed = derive_seed(verif_seed, prop, idx);
     let mut r = Rng::new(seed);
@@ -294,6 +400,84 @@ pub fn generate(prop: &str, verif_seed: u64, idx: u64) -> Scenario {
         "C01" => {
             let benign = idx % 2 == 1;
             rich_dump(&mut r, prop, seed, if benign { "c01-benign-faults" } else { "c01-clean" }, benign).0
+        }
+        "C09" => match idx % 3 {
+            0 => {
+                let mut sc = small_rich(&mut r, prop, seed, "c09-dump-dest-faults");
+                if let Workload::Dump(p) = &mut sc.workload {
+                    p.dests = vec![dest_plan(&mut r, true)];
+                }
+                sc
+            }
+            1 => {
+                let mut sc = small_rich(&mut r, prop, seed, "c09-dump-offsets");
+                if let Workload::Dump(p) = &mut sc.workload {
+                    p.dests = vec![dest_plan(&mut r, false)];
+                    sc.tags.push(format!("start{}", p.dests[0].start.min(2)));
+                }
+                sc
+            }
+            _ => {
+                let p = dir_plan(&mut r);
+                let tags = vec![format!("ops{}", p.ops.len() / 8), format!("slots{}", p.slots), format!("fx{}", p.dest.fx.len()), format!("start{}", p.dest.start.min(2))];
+                Scenario {
+                    prop: prop.into(),
+                    seed,
+                    profile: "c09-dirsection-sequences".into(),
+                    world: World { pid: PID, ..Default::default() },
+                    workload: Workload::DirSection(p),
+                    events: Vec::new(),
+                    faults: Vec::new(),
+                    sched: Sched::default(),
+                    tags,
+                }
+            }
+        },
+        "C10" => {
+            let mut sc = small_rich(&mut r, prop, seed, "c10-crash-points");
+            if let Workload::Dump(p) = &mut sc.workload {
+                p.dests = vec![dest_plan(&mut r, false)];
+            }
+            sc
+        }
+        "C19" => {
+            let mut sc = small_rich(&mut r, prop, seed, "c19-reuse");
+            let n = r.range(2, 5) as usize;
+            let tids: Vec<i32> = sc.world.threads.iter().map(|t| t.tid).collect();
+            if let Workload::Dump(p) = &mut sc.workload {
+                p.dests = (0..n).map(|_| dest_plan(&mut r, false)).collect();
+                if r.chance(1, 3) {
+                    // one failing request followed by further ones
+                    let k = r.below(n as u64 - 1) as usize;
+                    p.dests[k].fx = vec![(r.below(60) as u32, DestFx::Error(28))];
+                    sc.tags.push("failed-request".into());
+                }
+                let evolve = r.coin();
+                for _ in 1..n {
+                    let mut evs = Vec::new();
+                    if evolve {
+                        for _ in 0..r.below(3) {
+                            match r.below(4) {
+                                0 if tids.len() > 1 => {
+                                    let t = *r.pick(&tids[1..]);
+                                    if t != p.opts.blamed {
+                                        evs.push(EventKind::ThreadExit { tid: t });
+                                    }
+                                }
+                                1 => evs.push(EventKind::Rename { tid: *r.pick(&tids), comm: B::s("renamed") }),
+                                2 => evs.push(EventKind::CloseFd { fd: r.below(4) as u32 }),
+                                _ => evs.push(EventKind::WriteMem { addr: HEAP_BASE + 0x1000 + r.below(0x100) * 8, val: r.next() }),
+                            }
+                        }
+                    }
+                    p.between.push(evs);
+                }
+                if evolve {
+                    sc.tags.push("evolving".into());
+                }
+                sc.tags.push(format!("n{}", n));
+            }
+            sc
         }
         _ => rich_dump(&mut r, prop, seed, "generic", false).0,
     }
